@@ -20,8 +20,8 @@ func rulesC20(c *Ctx, r *Report) {
 	e := effFor(c)
 	rd := c.fn("formats/smtext", "ReadNCBI")
 	ex := c.role("smtext.singleChar")
-	if rd == nil || ex == nil {
-		r.undecided("ERR=>NIL", "formats/smtext.ReadNCBI", "anchor", "", "ReadNCBI or extractSingleChar not found")
+	if rd == nil {
+		r.undecided("ERR=>NIL", "formats/smtext.ReadNCBI", "anchor", "", "ReadNCBI not found")
 	} else {
 		rulesReadNCBI(c, r, rd, ex)
 		r.floor("REJECT-ONLY", rulesRejectOnly(c, r, rd, "formats/smtext.ReadNCBI", ncbiRejectCfg()), 3, "errors constructed and external error sources in ReadNCBI and its helpers (2 + 1 constructed, ParseFloat, Scanner.Err today)")
@@ -47,7 +47,12 @@ func rulesC20(c *Ctx, r *Report) {
 func rulesReadNCBI(c *Ctx, r *Report, rd, ex *ssa.Function) {
 	where := fname(rd)
 	r.analysed(where)
-	r.analysed(fname(ex))
+	// ex == nil: the label check is written out in ReadNCBI itself (no helper)
+	fns := []*ssa.Function{rd}
+	if ex != nil {
+		r.analysed(fname(ex))
+		fns = append(fns, ex)
+	}
 	// ERR=>NIL
 	n := 0
 	instrs(rd, func(in ssa.Instruction) {
@@ -83,32 +88,36 @@ func rulesReadNCBI(c *Ctx, r *Report, rd, ex *ssa.Function) {
 	r.check(okFinal, "ERR=>NIL", where, "success only after Err() == nil", c.pos(rd.Pos()), "the matrix is returned only on the edge where the scanner's Err() is nil", "the success return is not guarded by the scanner's Err(): a read failure yields a partial matrix with a nil error")
 	rulesScanErrFor(c, r, rd)
 	// B0 + GRD for both functions
-	rulesNoDroppedErrors(c, r, []*ssa.Function{rd, ex}, 3)
+	rulesNoDroppedErrors(c, r, fns, len(fns)+1)
 	rulesNumWidth(c, r, "formats/smtext")
-	rulesGrdFuncs(c, r, []*ssa.Function{rd, ex}, 10, "bounds goals in ReadNCBI and extractSingleChar (row[0], valStrs[0], valStrs[1:], chars[i], s[0])")
+	rulesGrdFuncs(c, r, fns, 10, "bounds goals in ReadNCBI and extractSingleChar (row[0], valStrs[0], valStrs[1:], chars[i], s[0])")
 	// STAR
-	se := newSymb(ex)
 	gap, _ := stepConstIn(c, "align", "Gap")
-	okStar := false
-	for _, rc := range returnCases(se, ex) {
-		if len(rc.vals) != 2 {
-			continue
-		}
-		if strings.Contains(rc.guard, `("*" == P0)`) && !strings.Contains(rc.guard, `!("*" == P0)`) {
-			if k, ok := cInt(constVal(rc.vals[0])); ok && k == gap {
-				okStar = true
+	if ex == nil {
+		rulesStarInline(c, r, rd, gap)
+	} else {
+		se := newSymb(ex)
+		okStar := false
+		for _, rc := range returnCases(se, ex) {
+			if len(rc.vals) != 2 {
+				continue
+			}
+			if strings.Contains(rc.guard, `("*" == P0)`) && !strings.Contains(rc.guard, `!("*" == P0)`) {
+				if k, ok := cInt(constVal(rc.vals[0])); ok && k == gap {
+					okStar = true
+				}
 			}
 		}
-	}
-	r.check(okStar, "STAR", fname(ex), "'*' is the gap", c.pos(ex.Pos()), fmt.Sprintf("the label \"*\" returns align.Gap (%d)", gap), "the label \"*\" does not return align.Gap")
-	// other labels return s[0]
-	okChar := false
-	for _, rc := range returnCases(se, ex) {
-		if len(rc.vals) == 2 && isNilConst(rc.vals[1]) && se.expr(rc.vals[0]).String() == "P0[0]" {
-			okChar = true
+		r.check(okStar, "STAR", fname(ex), "'*' is the gap", c.pos(ex.Pos()), fmt.Sprintf("the label \"*\" returns align.Gap (%d)", gap), "the label \"*\" does not return align.Gap")
+		// other labels return s[0]
+		okChar := false
+		for _, rc := range returnCases(se, ex) {
+			if len(rc.vals) == 2 && isNilConst(rc.vals[1]) && se.expr(rc.vals[0]).String() == "P0[0]" {
+				okChar = true
+			}
 		}
+		r.check(okChar, "STAR", fname(ex), "other labels are their byte", c.pos(ex.Pos()), "any other single-character label returns that character", "a single-character label other than \"*\" is not returned as its own byte")
 	}
-	r.check(okChar, "STAR", fname(ex), "other labels are their byte", c.pos(ex.Pos()), "any other single-character label returns that character", "a single-character label other than \"*\" is not returned as its own byte")
 	// CELL: m[[2]byte{rowLabel, chars[j]}] = ParseFloat(values[j+1], 64), values[0] being the row label's text
 	okCell := false
 	cellWhy := "no map update with a ParseFloat value found"
@@ -191,7 +200,19 @@ func rulesReadNCBI(c *Ctx, r *Report, rd, ex *ssa.Function) {
 				return
 			}
 			// row label: extract:0(call extractSingleChar(load(index(base, 0))))
+			if os.Getenv("BIOCHECK_DEBUG") != "" {
+				fmt.Fprintln(os.Stderr, "CELL key:", el[0].String(), "|", el[1].String(), "| base", base.String())
+			}
 			rowOK := el[0].Op == "extract:0" && len(el[0].Args) == 1 && strings.Contains(el[0].Args[0].Op, "call:") && len(el[0].Args[0].Args) == 1
+			if !rowOK && ex == nil {
+				// the label computed in place: ite("*" == L, Gap, L[0]) with L element 0 of the same value list
+				L := "load(" + base.String() + "[0])"
+				want1 := fmt.Sprintf("ite((\"*\" == %s), 255, %s[0])", L, L)
+				if el[0].String() == want1 {
+					rowOK = true
+					el[0] = &Sym{Op: "extract:0", Args: []*Sym{{Op: "call:inline", Args: []*Sym{{Op: "load", Args: []*Sym{{Op: "index", Args: []*Sym{base, {Op: "const", Leaf: "0"}}}}}}}}}
+				}
+			}
 			if rowOK {
 				a0 := el[0].Args[0].Args[0]
 				if a0.Op == "load" {
@@ -784,4 +805,109 @@ func rulesGenNCBI(c *Ctx, r *Report) {
 		}
 	})
 	r.check(len(bad) == 0, "GEN", where, "only {Gap,Gap} added", c.pos(read.Pos()), fmt.Sprintf("the only update of the matrix before printing (%d) is {Gap,Gap} = 0", nUpd), "the matrix is modified before printing other than by {Gap,Gap} = 0: "+strings.Join(bad, "; "))
+}
+
+// rulesStarInline (STAR without a helper): every label byte ReadNCBI computes is `Gap if the token is "*", else the
+// token's byte 0`: each merge of a byte that has align.Gap on one way in gets it only on the true edge of
+// `token == "*"` and the token's own byte 0 on the other.
+func rulesStarInline(c *Ctx, r *Report, rd *ssa.Function, gap int64) {
+	where := fname(rd)
+	n, good := 0, 0
+	instrs(rd, func(in ssa.Instruction) {
+		phi, ok := in.(*ssa.Phi)
+		if !ok || len(phi.Edges) != 2 {
+			return
+		}
+		gi := -1
+		for i, e := range phi.Edges {
+			if k, ok := cInt(constVal(e)); ok && k == gap {
+				gi = i
+			}
+		}
+		if gi < 0 {
+			return
+		}
+		n++
+		other := phi.Edges[1-gi]
+		// other must be tok[0]
+		var tok ssa.Value
+		switch x := other.(type) {
+		case *ssa.Lookup:
+			if k, ok := cInt(constVal(x.Index)); ok && k == 0 {
+				tok = x.X
+			}
+		case *ssa.Index:
+			if k, ok := cInt(constVal(x.Index)); ok && k == 0 {
+				tok = x.X
+			}
+		}
+		if tok == nil {
+			return
+		}
+		// the Gap edge is the true edge of tok == "*"
+		p := phi.Block().Preds[gi]
+		star := func(iff *ssa.If) bool {
+			bo, ok := iff.Cond.(*ssa.BinOp)
+			if !ok || bo.Op != token.EQL {
+				return false
+			}
+			for _, pr := range [][2]ssa.Value{{bo.X, bo.Y}, {bo.Y, bo.X}} {
+				if s, ok := constStr(pr[1]); ok && s == "*" && (pr[0] == tok || sameFreshElem(pr[0], tok)) {
+					return true
+				}
+			}
+			return false
+		}
+		okGap := false
+		if iff, ok := lastInstr(p).(*ssa.If); ok && p.Succs[0] == phi.Block() && star(iff) {
+			okGap = true
+		} else if len(p.Preds) == 1 {
+			if iff, ok := lastInstr(p.Preds[0]).(*ssa.If); ok && p.Preds[0].Succs[0] == p && star(iff) {
+				okGap = true
+			}
+		}
+		// and the other edge is its false edge
+		q := phi.Block().Preds[1-gi]
+		okOther := false
+		if iff, ok := lastInstr(q).(*ssa.If); ok && q.Succs[1] == phi.Block() && star(iff) {
+			okOther = true
+		} else if len(q.Preds) == 1 {
+			if iff, ok := lastInstr(q.Preds[0]).(*ssa.If); ok && q.Preds[0].Succs[1] == q && star(iff) {
+				okOther = true
+			}
+		}
+		if okGap && okOther {
+			good++
+		}
+	})
+	r.check(n >= 2 && good == n, "STAR", where, "'*' is the gap, other labels are their byte", c.pos(rd.Pos()),
+		fmt.Sprintf("each of the %d label bytes computed in ReadNCBI is align.Gap exactly on the `token == \"*\"` edge and the token's byte 0 otherwise", n),
+		fmt.Sprintf("%d of %d label computations are not `Gap if token == \"*\" else token[0]` (column labels and row labels are both needed)", n-good, n))
+}
+
+// sameFreshElem: both values are loads of the same constant element of one slice that a call returned and that the
+// function only reads.
+func sameFreshElem(a, b ssa.Value) bool {
+	elem := func(v ssa.Value) (*ssa.Call, int64, bool) {
+		ld, ok := v.(*ssa.UnOp)
+		if !ok || ld.Op != token.MUL {
+			return nil, 0, false
+		}
+		ia, ok := ld.X.(*ssa.IndexAddr)
+		if !ok {
+			return nil, 0, false
+		}
+		k, ok := cInt(constVal(ia.Index))
+		if !ok {
+			return nil, 0, false
+		}
+		cl, ok := ia.X.(*ssa.Call)
+		if !ok || !onlyRead(cl, 0) {
+			return nil, 0, false
+		}
+		return cl, k, true
+	}
+	c1, k1, ok1 := elem(a)
+	c2, k2, ok2 := elem(b)
+	return ok1 && ok2 && c1 == c2 && k1 == k2
 }
